@@ -7,8 +7,9 @@ LEVEL = "exploration"
 RULE = ("seeded scenarios (objective family x box x r x eps x budget x density x call pattern) run through the real "
         "Solver with a recording objective and listener; every prefix of the authenticated trial sequence is audited "
         "by an independent model of the decision rule. A case is non-trivial when at least 3 trials were audited; "
-        "distinct = distinct (family, N, r, trial count, first 3 audited coordinates).")
-ASSUMPTIONS = ["objective values finite and |z| <= 1e100", "eps kept inside the floating-point domain eps^N >= 2^-40",
+        "distinct = distinct (family, N, r, trial count, first 3 audited coordinates)."
+       ' The point of the first trial must be a cell centre of the configured density on the configured box. A group of deep one-dimensional runs (eps 3e-16..1e-13) is audited with an arg-max tolerance of 1e-11 of the magnitude of the terms of the characteristic.')
+ASSUMPTIONS = ["objective values finite and |z| <= 1e100", "eps kept inside the floating-point domain eps^N >= 2^-40 (except the deep one-dimensional group; runs ended by the method's own guard at adjacent doubles are skipped)",
                "arg-max compared with relative tolerance 1e-9 (ties accepted)"]
 SIZES = {"quick": 480, "thorough": 40000}
 
